@@ -72,17 +72,18 @@ def make_concat(P):
 
 def make_chunks(P):
     def h(cls: int, jm: int, jc: int, nc: int, c1: int, c2: int, c3: int, mult: int, nd: int, s1: int, s2: int, k: int, l1: int, l2: int, l3: int, skip: bool) -> str:
-        ci = fork_int(cls, 0, 1)
-        jmi = fork_int(jm, 0, 2)  # 0: class default, 1: stack, 2: concat
-        jci = fork_int(jc, 0, 2)  # 0: class default, 1: True, 2: False
+        ci = fork_int(cls, 0, 1) if P.get("classes", True) else 0
+        jmi = fork_int(jm, 0 if ci else 1, 2)  # 0: class default (CSV only; the base default is concat), 1: stack, 2: concat
+        jci = fork_int(jc, 0 if ci else 1, 2)  # 0: class default (CSV only), 1: True, 2: False
         ndim = fork_int(nd, 0, 2)
-        only_shard(ci + 2 * jmi + 6 * jci + 18 * ndim, P)
         ncs = fork_int(nc, 0, 3)
+        only_shard(ci + 2 * jmi + 6 * jci + 18 * ndim + 54 * ncs, P)
         cs = tuple(fork_int(c, 1, P["cmax"]) for c in (c1, c2, c3)[:ncs])
-        mu = fork_int(mult, 0, 3)
+        MU = P.get("mults", [0, 1, 2, 3])
+        mu = MU[fork_int(mult, 0, len(MU) - 1)]
         dshape = [fork_int(s, 1, P["smax"]) for s in (s1, s2)[:ndim]]
         kk = fork_int(k, 0, P["K"])
-        lens = [fork_int(x, 1, 3) for x in (l1, l2, l3)[:kk]]
+        lens = [fork_int(x, 1, P.get("lmax", 3)) for x in (l1, l2, l3)[:kk]]
         sk = fork_bool(skip)
         with notrace():
             from bluesky.consolidators import ConsolidatorBase, CSVConsolidator
@@ -163,8 +164,8 @@ register(Harness("c36_concat", "C36", make_concat, {"quick": dict(K=3, shards=1,
                  goals=["accepted-contiguous", "rejected-gap", "rejected-mixed", "out-of-order"], functions=_fns_a, mode="traced",
                  symbolic="1..3 stream datums: index start/stop and seq_num start are unbounded symbolic integers (non-empty, seq span = index span), descriptor and resource each one of two values, any order",
                  out_of_bound="more than 3 datums; empty datums (start == stop); datums whose seq span differs from their index span", require_exhaustive=True))
-register(Harness("c36_chunks", "C36", make_chunks, {"quick": dict(K=2, cmax=3, smax=4, shards=32, budget_s=300, per_path_s=30), "thorough": dict(K=3, cmax=5, smax=6, shards=108, budget_s=3000, per_path_s=30)},
+register(Harness("c36_chunks", "C36", make_chunks, {"quick": dict(K=2, lmax=2, cmax=2, smax=3, mults=[0, 2], classes=False, shards=32, budget_s=300, per_path_s=30), "thorough": dict(K=3, cmax=3, smax=4, shards=128, budget_s=3000, per_path_s=30)},
                  goals=["consumed", "several-chunks", "chunk_shape-too-long-rejected"], functions=_fns_b, mode="schedule",
-                 symbolic="class in {ConsolidatorBase, CSVConsolidator}; join_method in {default, stack, concat}; join_chunks in {default, True, False}; chunk_shape of length 0..3 with entries 1..cmax; "
-                 "multiplier in {none,1,2,3}; datum shape of 0..2 dims with sizes 1..smax; 0..K consumed datums of 1..3 rows, contiguous from row 0, optionally each with a trailing skipped frame",
+                 symbolic="class in {ConsolidatorBase, CSVConsolidator (thorough tier)}; join_method in {stack, concat}; join_chunks in {True, False} (and the class defaults for CSV); chunk_shape of length 0..3 with entries 1..cmax; "
+                 "multiplier in {none,1,2,3} (quick: none, 2); datum shape of 0..2 dims with sizes 1..smax; 0..K consumed datums of 1..lmax rows, contiguous from row 0, optionally each with a trailing skipped frame",
                  out_of_bound="variable-sized (None) dimensions (documented NotImplementedError); non-contiguous datums; HDF5/multipart subclasses (same chunks property; file naming is C37)", require_exhaustive=True))
